@@ -494,3 +494,30 @@ Lemma key_alias_with_space :
   let l' := [b "repository:a:pull"; b "repository:b:pull"] in
   join [c_space] (clean_scopes l) = join [c_space] (clean_scopes l') /\ clean_scopes l <> clean_scopes l'.
 Proof. split; vm_compute; [reflexivity | discriminate]. Qed.
+
+(* ---------- wildcard / membership without the length restriction ---------- *)
+Lemma star_absorbs_all l s t n a :
+  In s l -> classify s = Keyed t n a -> In [c_star] a ->
+  In (t ++ [c_colon] ++ n ++ [c_colon] ++ [c_star]) (clean_scopes l).
+Proof.
+  intros Hs Hc Hstar.
+  rewrite (clean_scopes_same l (l ++ l)) by (intro x; rewrite in_app_iff; tauto).
+  apply (star_absorbs (l ++ l) s t n a); auto.
+  - destruct l as [|x l']; [destruct Hs|]. simpl. rewrite app_length. simpl. lia.
+  - apply in_app_iff. now left.
+Qed.
+
+Lemma clean_scopes_members_all l y :
+  In y (clean_scopes l) <->
+  (In y l /\ classify y = Pass y) \/
+  exists k, In k (keys_of (map classify l) []) /\ rebuild (map classify l) k = [y].
+Proof.
+  rewrite clean_eq_slow, slow_in, in_presort.
+  assert (HP : In (Pass y) (map classify l) <-> In y l /\ classify y = Pass y).
+  { rewrite in_map_iff. split.
+    - intros (s & E & Hs). pose proof (pass_self _ _ E). subst. auto.
+    - intros [H E]. exists y. auto. }
+  rewrite HP. split; (intros [H|(k & Hk & Hy)]; [left; exact H | right; exists k; split; auto]).
+  - now apply rebuild_singleton.
+  - rewrite Hy. now left.
+Qed.
